@@ -24,6 +24,7 @@ Record fcase := mkFcase {
   f_mark : Z;             (* when the injected misbehaviour happened, by the command's own clock; -1 = n/a *)
   f_total_wait : Z;       (* sum over the acts of their last waitUntil: the play cannot end well earlier *)
   f_grace : Z;            (* when a spotlight's SIGHUP handler ran (its marker); -1 = no marker *)
+  f_after_sig_ms : Z;     (* exit instant minus the instant of the (first) signal; -1 = no signal *)
   f_survivors : Z }.
 
 Definition F_none := 0%N.           Definition F_action_fails := 1%N.
@@ -42,7 +43,10 @@ Definition F_graceful := 20%N.
 Definition F_foul_S_chatty := 21%N.
 Definition F_sig_action := 22%N.        (* SIGINT / SIGTERM while a 3 s action runs, cast with spotlights *)
 Definition F_sig_action_nospot := 23%N. (* ... cast without spotlights *)
-Definition F_hup_leader_sig := 24%N.    (* a spotlight whose leader ignores SIGHUP, play ended by a signal *)   (* -S foul during a long action, chatty spotlight *)
+Definition F_hup_leader_sig := 24%N.    (* a spotlight whose leader ignores SIGHUP, play ended by a signal *)
+Definition F_sig_cleanup1 := 25%N.      (* SIGINT / SIGTERM while the initial cleanups (2 s) are running *)
+Definition F_setsid := 26%N.            (* a spotlight's descendant in another session holds its output pipe *)
+Definition F_two_sigints := 27%N.       (* a never-ending action, SIGINT, a second SIGINT 2 s later *)   (* -S foul during a long action, chatty spotlight *)
 Definition is_hang (f : N) : bool := (13 <=? f)%N && (f <=? 19)%N.
 
 Definition rows_n (n : Z) (rows : list (Z * Z * Z * Z)) : list (Z * Z * Z * Z) :=
@@ -97,7 +101,8 @@ Definition in_time (c : fcase) (t : Z) : bool := (0 <? t) && (t + 500000000 <? n
 (** Where the status is due, and what it must be (true = zero). *)
 Definition status_due (c : fcase) : option bool :=
   let f := f_fault c in
-  if (f =? F_none)%N || (f =? F_hup_leader)%N || (f =? F_hup_child)%N || (f =? F_hup_bg)%N || (f =? F_graceful)%N then Some true
+  if (f =? F_none)%N || (f =? F_hup_leader)%N || (f =? F_hup_child)%N || (f =? F_hup_bg)%N || (f =? F_graceful)%N
+     || (f =? F_setsid)%N then Some true
   else if (f =? F_action_fails)%N || (f =? F_clean_fails_1)%N || (f =? F_clean_fails_2)%N then Some false
   else if (f =? F_spot_fails)%N || (f =? F_foul_S)%N || (f =? F_expr)%N || (f =? F_expr_S)%N then
     (if in_time c (f_mark c) then Some false else None)
@@ -118,6 +123,12 @@ Definition status_bad (c : fcase) : bool :=
     protocol is SIGHUP first, SIGKILL only after the 2 s grace). *)
 Definition c07_oracle_mask (c : fcase) : N :=
   let killed_before_start := (f_exit c <? 0) && f_exited c && nothing_ran c && negb (f_sig c =? 0)%N in
+  if (f_fault c =? F_two_sigints)%N then
+    (* a second SIGINT during the shutdown ends the process at once (it re-raises the
+       signal): nothing else can be asked of a forced exit.  "At once" against the one
+       minute hard limit of a single signal: well within 32 s of the first signal. *)
+    bit (negb (f_exited c) || (32000 <? f_after_sig_ms c)) 1%N
+  else
   N.add (bit (negb (f_exited c)) 1%N)
  (N.add (bit ((f_fault c =? F_graceful)%N && f_exited c && (f_exit c =? 0) && (f_grace c <? 0)) 64%N)
  (N.add (bit (0 <? f_survivors c) 2%N)
@@ -165,6 +176,12 @@ Definition labels_of (f : N) : bool * list label :=
        it and keeps waiting (commit 19d275f), the prompter ends when the action does *)
     (false, [LCleanup1 true; LScene; LQuiesce; LFin CS ENil; LPick CS; LFin CA ENil; LPick CA;
              LFinP false ENil; LPick CP; LPick CS; LPick CA; LFin CK ENil; LPick CK; LDefer false; LCleanup2 true])
+  else if (f =? F_sig_cleanup1)%N then
+    (false, [LQuiesce; LCleanup1 true; LFinP false ENil; LPick CP] ++ tail_ok ++ [LDefer false; LCleanup2 true])
+  else if (f =? F_setsid)%N then
+    (false, [LCleanup1 true; LScene; LScene; LScene; LFinP true ENil; LPick CP] ++ tail_ok ++ [LDefer false; LCleanup2 true])
+  else if (f =? F_two_sigints)%N then
+    (true, [LCleanup1 true; LQuiesce; LFin CS ENil; LFin CA ENil; LFin CK ENil; LPick CS])
   else if (f =? F_hup_leader_sig)%N then
     (false, [LCleanup1 true; LScene; LQuiesce; LFinP false ENil; LPick CP] ++ tail_ok ++ [LDefer false; LCleanup2 true])
   else if (f =? F_hang_clean_1)%N then (false, [])
@@ -192,7 +209,7 @@ Definition c07_model_bad (c : fcase) : bool :=
   let '(valid, ret, isnil, cl2) := predict (f_fault c) in
   let killed_before_start := (f_exit c <? 0) && nothing_ran c in
   (* a never-ending action counts as injected only if the ledger shows it started and did not end *)
-  let not_injected := is_hang (f_fault c) && negb (f_fault c =? F_hang_clean_1)%N && negb (f_fault c =? F_hang_clean_2)%N
+  let not_injected := (is_hang (f_fault c) || (f_fault c =? F_two_sigints)%N) && negb (f_fault c =? F_hang_clean_1)%N && negb (f_fault c =? F_hang_clean_2)%N
                       && negb (existsb (fun a => snd a <? 0) (f_actions c)) in
   if killed_before_start || not_injected then false
   else negb valid
